@@ -42,8 +42,11 @@ def run(ctx, replay=None):
     hist = D.gen_factor_histories(ctx.rng, ctx.tier)
     traces = [D.factor_history(h, "direct" if i % 2 == 0 else "precipitate") for i, h in enumerate(hist)]
     labels = ["factors:%s" % [o[0] if o[0] != "read" else o[1] for o in h] for h in hist]
-    traces += [D.nucleation_relations(), D.site_accounting(), D.limit_relations()]
-    labels += ["nucleation-relations", "site-accounting", "limit-of-admissible-ratio"]
+    mh = D.gen_model_factor_histories()
+    traces += [D.model_factor_history(h) for h in mh]
+    labels += ["model-factors:%s" % [(o[0], o[1]) for o in h] for h in mh]
+    traces += [D.nucleation_relations(), D.site_accounting(), D.limit_relations(), D.zero_driving_force_relations()]
+    labels += ["nucleation-relations", "site-accounting", "limit-of-admissible-ratio", "zero-driving-force"]
     reached, r2 = T.validate("Relations", [], traces, "c14_rel")
     ctx.add_tlc(r2, "Relations over %d traces" % len(traces))
     if r2.violated or reached is None:
